@@ -114,7 +114,7 @@ pub fn run_c16<C: NatCtx>(v: &mut Env<C>) {
     // label lengths 0..=140 (quick: the padding-boundary neighbourhoods): every residue of the transcript length
     // modulo the SHA-512 block size; challenge = hash_to_exp(documented transcript bytes)
     if (v.small && v.p == big(23)) || v.p.bits() == 130 {
-        let lens: Vec<usize> = if quick { vec![0, 1, 2, 3, 15, 16, 17, 30, 31, 32, 33, 47, 48, 63, 64, 65, 100, 127, 128, 129] } else { (0..=140).collect() };
+        let lens: Vec<usize> = if quick { vec![0, 1, 2, 3, 15, 16, 17, 30, 31, 32, 33, 47, 48, 63, 64, 65, 100, 127, 128, 129, 70000] } else { (0..=140).chain([65535, 65536, 70000, 1 << 20]).collect() };
         let (x, tt) = (v.rnd_exp(), v.rnd_member());
         let (ge, ye, te) = (v.e(&g), v.e(&g.modpow(&x, &p)), v.e(&tt));
         let y = g.modpow(&x, &p);
@@ -354,7 +354,7 @@ pub fn run_c17<C: NatCtx>(v: &mut Env<C>) {
     }
     // seed lengths across the SHA-512 padding boundaries (seed || "ggen" || 16 bytes per attempt)
     if (v.small && v.p == big(23)) || v.p.bits() == 130 {
-        let lens: Vec<usize> = if quick { vec![2, 3, 43, 44, 90, 91, 92, 107, 108, 109, 219, 220, 221] } else { (0..=240).collect() };
+        let lens: Vec<usize> = if quick { vec![2, 3, 43, 44, 90, 91, 92, 107, 108, 109, 219, 220, 221, 70000] } else { (0..=240).chain([65535, 65536, 70000, 1 << 20]).collect() };
         for len in lens {
             let seed = v.h.rng.bytes(len);
             let (c2, sd) = (ctx.clone(), seed.clone());
